@@ -8,12 +8,12 @@ from . import algo_common as ac
 
 PID = "C15"
 RULE = ("case = one history of API calls replayed on ONE shared Dataset and ONE shared ScoringScheme; histories are the "
-        "reachable states of spec/Session.tla (every sequence of <= 3 calls over 18 call kinds: score, cost table, both "
+        "reachable states of spec/Session.tla (every sequence of <= 3 calls over 21 call kinds: two in-place removals, score, cost table, both "
         "partitions, 9 algorithms, read score/description, score of a hand-built partial consensus, unified views, "
-        "projection, ==/str); after every call an "
+        "projection, ==/str, score of a hand-built complete consensus without feature dictionary); after every call an "
         "abstract and a deep structural snapshot (private fields, object identities) of both inputs is taken; "
         "non-trivial = histories of >= 2 calls on datasets with >= 2 elements")
-EXHAUSTIVE = {"quick": "all 6174 non-empty histories of <= 3 calls over 18 call kinds, each on a (dataset, scheme) from a pool of 24",
+EXHAUSTIVE = {"quick": "all 9723 non-empty histories of <= 3 calls over 21 call kinds (two of them in-place mutators), each on a (dataset, scheme) from a pool of 24",
               "thorough": "all histories x 4 (dataset, scheme) pools + 2000 random histories of 8 calls"}
 ASSUMPTIONS = ["within a session the algorithm OBJECTS are shared too (one instance per kind); in half of the sessions each "
                "shared instance first serves another dataset and its score is read, the fresh-copy twin uses fresh instances",
@@ -80,7 +80,7 @@ def _nt(rec):
 
 
 def models(tier):
-    return [Model("Session", "Gen_Session.cfg", "session machine: every history of <= 3 calls (4369 states = histories); "
+    return [Model("Session", "Gen_Session.cfg", "session machine: every history of <= 3 calls over 21 call kinds (9724 states = histories), two of them mutators; "
                   "NoMutation action property and memo rule")]
 
 
